@@ -186,6 +186,20 @@ fn c11(seed: u64, thorough: bool) -> Scenario {
         }
         tags.push("list".to_string());
     }
+    // an --ignore glob for a hidden namesake of an existing directory names nothing
+    if g.rng.chance(1, 6) {
+        let tops: Vec<String> = g
+            .world
+            .files
+            .iter()
+            .filter_map(|f| f.path.split_once('/').map(|(d, _)| d.to_string()))
+            .filter(|d| !d.starts_with('.') && !d.contains(['[', '{', '\\']))
+            .collect();
+        if !tops.is_empty() {
+            let d = g.rng.pick(&tops).clone();
+            g.world.args.ignore.push(format!(".{d}/**"));
+        }
+    }
     g.world.args.long_flags = g.rng.chance(1, 2);
     // level B: report paths must stay root-relative wherever the tool is started (only for
     // worlds without scripts, whose paths are cwd-relative by design)
@@ -548,6 +562,32 @@ fn c13(seed: u64, thorough: bool) -> Scenario {
         g.world.stdin = StdinSpec::Terminal;
     }
     make_healthy_except(&mut g.world, &carrier_path);
+    // ... or one of its content lines was blanked: a replaced line whose new text is empty
+    if diff_mode && g.world.files[fi].diff == FileDiff::Added && g.rng.chance(1, 6) {
+        let mut placed = false;
+        for_each_block_mut(&mut g.world.files[fi].blocks, &mut |b| {
+            if !placed && b.attrs == malformed_attrs && b.children.is_empty() && b.lines.len() >= 2 && b.lines[0] != b.lines[1] {
+                if !b.lines[0].is_empty() && !b.lines[1].is_empty() {
+                    b.lines.insert(1, String::new());
+                    placed = true;
+                }
+            }
+        });
+        if placed {
+            let r = render_file(&g.world.files[fi], false);
+            if let Some(b) = r.blocks.iter().find(|b| b.attrs == malformed_attrs && b.tag_lines == 1) {
+                let l = b.start_line + 2;
+                if r.lines.get(l - 1).is_some_and(|x| x.is_empty()) && g.insert_candidates(fi).contains(&l) {
+                    g.world.files[fi].diff = FileDiff::Insert {
+                        line: l,
+                        renamed_from: None,
+                        edit: LineEdit::Replaced { old: "gone-blanked".into() },
+                        more: vec![],
+                    };
+                }
+            }
+        }
+    }
     // the usual way a malformed rule arrives: its start tag was edited, and a content line with it
     if diff_mode && g.rng.chance(1, 3) {
         let r = render_file(&g.world.files[fi], false);
